@@ -657,6 +657,58 @@ func (r *Ring) Exec(t []string) string {
 			}
 			return "ok:" + idOrNil(p) + ":" + idOrNil(s)
 		})
+	case "joinprobe":
+		// joinprobe <j> <peer> <key>: Join(peer) at j; while its join request is on the way to the peer (j is Joining
+		// and has no neighbour pointers yet) a lookup for <key> is made at j
+		return withTimeout(3*opTimeout, func() string {
+			at, resume := r.PauseNext(func(m string) bool { return m == "RequestToJoin" })
+			done := make(chan string, 1)
+			go func() {
+				defer func() {
+					if recover() != nil {
+						done <- "err:PANIC"
+					}
+				}()
+				done <- ErrName(r.Node(u(1)).Join(r.Wrap(u(2))))
+			}()
+			lres := "nopause"
+			select {
+			case <-at:
+				lc := make(chan string, 1)
+				go func() {
+					defer func() {
+						if recover() != nil {
+							lc <- "err:PANIC"
+						}
+					}()
+					v, err := r.Wrap(u(1)).FindSuccessor(u(3))
+					if err != nil {
+						lc <- ErrName(err)
+					} else {
+						lc <- "found:" + idOrNil(v)
+					}
+				}()
+				select {
+				case lres = <-lc:
+				case <-time.After(opTimeout):
+					lres = "timeout"
+				}
+			case res := <-done:
+				resume()
+				return "nopause;" + res
+			case <-time.After(opTimeout):
+				resume()
+				return "timeout"
+			}
+			resume()
+			select {
+			case res := <-done:
+				time.Sleep(2 * time.Millisecond)
+				return lres + ";" + res
+			case <-time.After(opTimeout):
+				return lres + ";timeout"
+			}
+		})
 	case "leavefinish":
 		// leavefinish <l> <pre> <succ>: the tail of Leave() after a successful executeLeave (advisory to the
 		// predecessor, local state Left, release of the successor's lock)
